@@ -536,7 +536,12 @@ func (t *stdioClientTransport) sendErrorResponse(request *JSONRPCRequest, code i
 		return
 	}
 
-	if err := t.encoder.Encode(json.RawMessage(errorBytes)); err != nil {
+	// Same lock as requests and notifications: the answer must not be written into the middle of
+	// a frame another goroutine is sending on stdin.
+	t.requestMutex.Lock()
+	err = t.encoder.Encode(json.RawMessage(errorBytes))
+	t.requestMutex.Unlock()
+	if err != nil {
 		t.logger.Errorf("Failed to send error response: %v", err)
 	}
 }
